@@ -619,6 +619,19 @@ def run(ctx):
         if t in seen or "\x00" in t and r.random() < 0.9:
             continue
         seen.add(t); cases.append((c, t))
+    # values that are textually related to one another: the same host with a port that is a decimal prefix / suffix of the
+    # other's port (`node.example:6881` and `node.example:68`); they are paired on one command line further down
+    # (added after seeded change C17-10: a substring test for "already in the link" dropped the shorter one)
+    related = []
+    with_port = [k for k, (c, t) in enumerate(cases) if re.search(r":[0-9]{2,5}$", t, re.ASCII) and "\x00" not in t]
+    for k in r.sample(with_port, min(len(with_port), ctx.n(80, 800))):
+        host, _, port = cases[k][1].rpartition(":")
+        cut = r.randrange(1, len(port))
+        for t2 in (host + ":" + port[:cut], host + ":" + (port[cut:].lstrip("0") or "0")):
+            if t2 not in seen:
+                seen.add(t2); cases.append(("related", t2))
+                related.append((k, len(cases) - 1))
+    ctx.related_pairs = related
     tb = [t.encode("utf-8") for _, t in cases]
     impl_p = ctx.harness(["hpparse " + lib.hexs(b) for b in tb])
     impl_b = ctx.harness(["hpben " + lib.hexs(b) for b in tb])
@@ -847,6 +860,11 @@ def e2e(ctx, cases, accepted, printed, stored):
     while i < len(pick):
         k = r.choice([1, 1, 2, 3])
         groups.append(pick[i:i + k]); i += k
+    us = set(usable)
+    rel = [(a, b) for a, b in getattr(ctx, "related_pairs", []) if a in us and b in us]
+    for a, b in r.sample(rel, min(len(rel), ctx.n(30, 300))):
+        groups += [[a, b], [b, a]]
+    groups += [[i, i] for i in r.sample(usable, min(len(usable), ctx.n(6, 40)))]      # the same value twice: two x.pe, two nodes
     rej = [t for c, t in cases if oracle_expect(t)[0] == "reject" and "\x00" not in t]
     rej_pick = [t for t in CORPUS if t in set(rej)] + r.sample(rej, min(len(rej), ctx.n(60, 600)))
     rej_pick = list(dict.fromkeys(rej_pick))
@@ -872,6 +890,13 @@ def e2e(ctx, cases, accepted, printed, stored):
                 a4 = ["torrent", "link", "--input", "o.torrent"] + sum((arg("--peer", t) for t in texts), [])
                 res["link"] = ctx.imdl(a4, cwd=d)
                 res["argv_link"] = ["imdl"] + a4
+                # the same command again with --force and only the nodes changed (reversed; or none at all): what is stored is what
+                # THIS run was given (added after seeded change C17-11: an "output is up to date" shortcut that did not compare nodes)
+                texts2 = list(reversed(texts)) if len(texts) > 1 and texts[0] != texts[-1] else []
+                a5 = ["torrent", "create", "--force", "--input", "f", "--output", "o.torrent"] + sum((arg("--node", t) for t in texts2), []) + extra
+                res["recreate"] = ctx.imdl(a5, cwd=d)
+                res["recreate_reversed"] = bool(texts2)
+                res["torrent2"] = open(p, "rb").read() if os.path.exists(p) else None
             return g, res
 
         def judge(g, res):
@@ -924,6 +949,15 @@ def e2e(ctx, cases, accepted, printed, stored):
                     bad.append("magnet x.pe values under a standard query parser (%s) are %r, expected %r"
                                % ("+ means space" if plus else "+ literal", pe, want_print))
                     break
+            if "recreate" in res:
+                try:
+                    nodes2 = lib.dget(lib.bdecode_strict(res["torrent2"])[0], "nodes")
+                except Exception as e:
+                    nodes2 = repr(e)
+                want2 = list(reversed(want_pairs)) if res["recreate_reversed"] else None
+                if res["recreate"][0] != 0 or nodes2 != want2:
+                    bad.append("a second `create --force` to the same output with the nodes %s (exit %d) left `nodes` = %r, expected %r"
+                               % ("reversed" if res["recreate_reversed"] else "removed", res["recreate"][0], nodes2, want2))
             return bad, case
 
         for g, res in lib.pmap(good, groups):
